@@ -31,6 +31,7 @@ CHECKS = {
     "C18": ("p_mp", "c18"),
     "C12": ("p_split", "c12"),
     "C13": ("p_rewrites", "c13"),
+    "C15": ("p_history", "c15"),
 }
 
 
